@@ -98,9 +98,21 @@ def abandon : Stack → Stack
   | _ :: r => r
   | [] => []
 
+/-- `dict.update` on an association list -/
+def dictUpd {α β} [BEq α] (d : List (α × β)) (k : α) (b : β) : List (α × β) :=
+  if d.any (fun kv => kv.1 == k) then d.map (fun kv => if kv.1 == k then (k, b) else kv)
+  else d ++ [(k, b)]
+
+/-- the repaired `PartialMatchResult.merge` (proposed fix C06-F3): value and node bindings of the
+sub-match are kept as well -/
+def Partial.mergeAll (prev cur : Partial) : Partial :=
+  { prev.merge cur with
+    vb := cur.vb.foldl (fun d kv => dictUpd d kv.1 kv.2) prev.vb,
+    nb := cur.nb.foldl (fun d kv => dictUpd d kv.1 kv.2) prev.nb }
+
 /-- `merge_current_match` (precondition: the current match is successful) -/
-def mergeTop : Stack → Stack
-  | cur :: prev :: r => prev.merge cur :: r
+def mergeTop (fix3 : Bool) : Stack → Stack
+  | cur :: prev :: r => (if fix3 then prev.mergeAll cur else prev.merge cur) :: r
   | st => st
 
 /-! ## Environment -/
@@ -112,6 +124,10 @@ structure Env where
   repaired code (`return self.fail(...)`, /repo 778bd07); `false` = the code before the repair
   (`return False` without failing the match, finding C06-F1) — kept for the refutation witness. -/
   fixF1 : Bool := true
+  /-- proposed fix C06-F3 (`merge` keeps node and value bindings); `false` = the code as committed -/
+  fixF3 : Bool := false
+  /-- proposed fix C06-F8 (a clashing tag binding fails the alternative); `false` = as committed -/
+  fixF8 : Bool := false
   /-- `math.isclose(host, pattern, rel_tol=…, abs_tol=…)` — an abstract relation indexed by the two
   tolerances the `Constant` pattern carries (C05 judges the numeric use). -/
   close : Tol → Tol → Int → Int → Bool
@@ -248,7 +264,9 @@ def matchAlts (E : Env) (rec : NPId → NodeId → Stack → R) (alts : List VPa
         | none => r.2
       -- merge_current_match raises ValueError when the sub-match was failed by the tag
       -- binding; modelled as a failure (outside the correspondence domain)
-      if topOk st2 then (true, mergeTop st2) else fail (abandon st2)
+      if topOk st2 then (true, mergeTop E.fixF3 st2)
+      else if E.fixF8 then matchAlts E rec rest tags.tail tagVar v (abandon st2)
+      else fail (abandon st2)
     else matchAlts E rec rest tags.tail tagVar v (abandon r.2)
 end
 
